@@ -31,7 +31,11 @@ code runs after each driver write is a separate `pass` action, so that a schedul
 Drivers are registers (`reg`): `ROut.ok` returns the register, `setSrc` is the physical world changing it,
 a successful write stores into it.  The expression layer is abstract: `Env.deps` + `Env.evalE`.
 Not modelled (named in the MANIFEST note): time-dependent expression deps ('second', 'asap' pause rule),
-queue overflow, read/write transforms, latencies (a pass is atomic).
+queue overflow, read/write transforms, latencies (a pass is atomic), the per-port forced-evaluation set and
+enabling/disabling ports at run time (`enabled` is static here) — hence also the branch "a port that is DISABLED when
+its read fails is not put into the error set" (repo commit 680658d) cannot be reached by the fault schedules of this
+model and of the harness: outside.  The confirming `main.update()` that `_eval_and_write` runs after an expression
+write (C01 repair) and the one of `_write_value_loop` are ordinary `pass` actions of a schedule.
 Core Lean only.
 -/
 namespace QtVerif.Faults
@@ -206,16 +210,18 @@ inductive PassKind
 def kill (k : PassKind) (s : State) : State :=
   if k == .loop then { s with loopAlive := false } else s
 
-/-- `update()` -/
+/-- `update()`.  The forced-evaluation flag is taken (and cleared) at the START of the pass, before polling
+(repo commit c8ed452), so an aborted pass has consumed it too. -/
 def pass (P : Params) (E : Env) (k : PassKind) (now : Nat) (s : State) : State :=
   if k == .loop && !s.loopAlive then s
   else
     let r := pollAll P E now (now / P.ups != s.lastSec) ⟨s.errs, s.trace, [], false⟩ s.ports
-    let s1 : State := { s with ports := r.2, errs := r.1.errs, lastSec := now / P.ups, trace := r.1.trace }
+    let s1 : State := { s with ports := r.2, errs := r.1.errs, lastSec := now / P.ups, fullEval := false,
+                               trace := r.1.trace }
     if r.1.aborted then kill k s1
     else
       let d := deliver E now P.nh (r.1.trace, false) r.1.changed
-      let s2 : State := { s1 with fullEval := false, trace := d.1 }
+      let s2 : State := { s1 with trace := d.1 }
       if d.2 then kill k s2
       else { s2 with ports := pushEvals E s.fullEval (r.1.changed.map (fun c => c.1)) (snapshot r.2) r.2 }
 
